@@ -328,6 +328,9 @@ func runCall(cc *grpc.ClientConn, s PScript, callID string) PView {
 		var copts []grpc.CallOption
 		if s.Gzip {
 			copts = append(copts, grpc.UseCompressor("gzip"))
+		} else if s.ID%3 == 0 {
+			// a client that names the identity encoding explicitly (grpc-encoding: identity): same call, nothing compressed
+			copts = append(copts, grpc.UseCompressor("identity"))
 		}
 		cs, err := cc.NewStream(ctx, sd, "/vp.P/"+name, copts...)
 		if err != nil {
